@@ -11,6 +11,29 @@ mod streams;
 use out::Sink;
 use rng::Rng;
 
+/// A subscriber that is enabled for everything and formats every event's fields, as any real logger does: the
+/// library's `info!` / `warn!` / `error!` arguments (times, errors, URLs …) are evaluated, so a `Display` impl that
+/// panics on some value is a panic of the state machine, as it is in a deployment with logging on.
+struct EvalLogs;
+
+impl tracing::Subscriber for EvalLogs {
+    fn enabled(&self, _: &tracing::Metadata<'_>) -> bool { true }
+    fn new_span(&self, _: &tracing::span::Attributes<'_>) -> tracing::span::Id { tracing::span::Id::from_u64(1) }
+    fn record(&self, _: &tracing::span::Id, _: &tracing::span::Record<'_>) {}
+    fn record_follows_from(&self, _: &tracing::span::Id, _: &tracing::span::Id) {}
+    fn event(&self, event: &tracing::Event<'_>) {
+        struct V(usize);
+        impl tracing::field::Visit for V {
+            fn record_debug(&mut self, _f: &tracing::field::Field, v: &dyn std::fmt::Debug) { self.0 += format!("{:?}", v).len(); }
+        }
+        let mut v = V(0);
+        event.record(&mut v);
+        std::hint::black_box(v.0);
+    }
+    fn enter(&self, _: &tracing::span::Id) {}
+    fn exit(&self, _: &tracing::span::Id) {}
+}
+
 pub struct Opts {
     pub seed: u64,
     pub thorough: bool,
@@ -60,8 +83,9 @@ fn main() {
             a => { eprintln!("unknown arg {}", a); std::process::exit(2); }
         }
     }
+    let _ = tracing::subscriber::set_global_default(EvalLogs);
     // Panics of the implementation are caught per case; keep their messages off stderr.
-    std::panic::set_hook(Box::new(|_| {}));
+    if std::env::var_os("HARNESS_SHOW_PANICS").is_none() { std::panic::set_hook(Box::new(|_| {})); }
     let mut rng = Rng::new(o.seed);
     let sink: Sink = match stream.as_str() {
         "version" => streams::version::run(&o, &mut rng),
